@@ -5,5 +5,7 @@ INVARIANTS
   WellFormed
   Conservation
   NonNegative
+  RowsAreDistributions
+  SeparatesIntoRows
   Emit
 CHECK_DEADLOCK FALSE
